@@ -2,8 +2,16 @@
    Statements only; proofs live in Merge/MergeProofs.v.  The model is instantiated with the source
    facts generated from /repo (Gen/MergeFacts.v): chunks_guard, entry_eq_strict. *)
 From Coq Require Import List.
-From NB Require Import Base.Res Base.Json Diff.DiffFormat Diff.GenericDiff Merge.SortKey Merge.Decisions
-     Merge.Apply Merge.MergeGeneric Merge.MergeProofs Gen.MergeFacts.
+From NB Require Import Base.Res.
+From NB Require Import Base.Json.
+From NB Require Import Diff.DiffFormat.
+From NB Require Import Diff.GenericDiff.
+From NB Require Import Merge.SortKey.
+From NB Require Import Merge.Decisions.
+From NB Require Import Merge.Apply.
+From NB Require Import Merge.MergeGeneric.
+From NB Require Import Merge.MergeProofs.
+From NB Require Import Gen.MergeFacts.
 Import ListNotations.
 
 (* identity: nothing changed => no decision at all, and applying no decision gives base back *)
@@ -17,8 +25,8 @@ Print Assumptions merge_id.
 (* ==== BEGIN block tied to the source fact chunks_guard (finding C05 empty-sequence-root) ====
    On the current source the identity law FAILS for an empty list / empty string at the root.
    After the fix (guard `base or any(split_diffs)`) replace this theorem by:
-     Theorem merge_id_empty_seq : forall O cfg St H, decide_merge_with_diff O cfg St H chunks_guard entry_eq_strict (JArr []) [] [] = Ok [].
-     Proof. exact decide_id_empty_fixed. Qed. *)
+     merge_id_empty_seq : forall O cfg St H, decide_merge_with_diff O cfg St H chunks_guard entry_eq_strict (JArr []) [] [] = Ok []
+     proved by  exact (fun O cfg St H => decide_id_empty_fixed O cfg St H entry_eq_strict). *)
 Theorem merge_id_empty_seq_refuted : forall O cfg St H,
   decide_merge_with_diff O cfg St H chunks_guard entry_eq_strict (JArr []) [] [] = Err AssertionError.
 Proof. exact (fun O cfg St H => decide_id_refuted O cfg St H entry_eq_strict). Qed.
